@@ -34,7 +34,7 @@ class Ctx:
     """Per-run recorder.  Nothing here draws from the tape or reads a clock."""
 
     __slots__ = ("log", "decisions", "faults_configured", "faults_fired", "probes",
-                 "states", "sim_time", "steps", "sample", "nontrivial", "workload", "keep_log")
+                 "states", "sim_time", "steps", "sample", "nontrivial", "workload", "keep_log", "frozen")
 
     def __init__(self, keep_log: bool = False):
         self.log: List[Any] = []          # decoded event log (kept only for replays / samples)
@@ -49,11 +49,15 @@ class Ctx:
         self.nontrivial = False
         self.workload = ""
         self.keep_log = keep_log
+        self.frozen = False   # set at teardown: nothing that happens while unwinding is part of the run
 
     def event(self, *ev) -> None:
-        self.log.append(ev)
+        if not self.frozen:
+            self.log.append(ev)
 
     def decide(self, *d) -> None:
+        if self.frozen:
+            return
         self.decisions.append(d)
         self.log.append(("decide",) + d)
 
@@ -61,10 +65,12 @@ class Ctx:
         self.faults_configured[kind] += 1
 
     def fault(self, kind: str) -> None:
-        self.faults_fired[kind] += 1
+        if not self.frozen:
+            self.faults_fired[kind] += 1
 
     def probe(self, name: str, n: int = 1) -> None:
-        self.probes[name] += n
+        if not self.frozen:
+            self.probes[name] += n
 
     def state(self, s) -> None:
         self.states.add(s)
